@@ -37,14 +37,14 @@ ASSUMPTIONS = [
 ]
 SIGNATURES = {}
 
-FEAT = gen.Feat(items=True, uncached=True, max_top=2, max_child=1, max_cells=4, max_rank=5, depth=2, tick=True,
+FEAT = gen.Feat(items=True, uncached=True, uncached_p=2, allow_none=True, max_top=2, max_child=1, max_cells=4, max_rank=5, depth=2, tick=True,
                 shadow=False, objrefs=False)
 
 
 def plan(tier):
     if tier == "quick":
-        return {"shards": 8, "examples": 150, "wall": 80}
-    return {"shards": 16, "examples": 2500, "wall": 1800}
+        return {"shards": 8, "examples": 500, "wall": 100}
+    return {"shards": 16, "examples": 6000, "wall": 2400}
 
 
 @st.composite
@@ -92,7 +92,10 @@ def cases(draw):
         if k <= 2:
             emit_eval(q)
         elif k <= 6 and full is not None and cdef.cached and None not in full:
-            op = ["set_value", sid, name, full, draw(st.integers(100, 199))]
+            val = draw(st.integers(100, 199))
+            if cdef.allow_none and draw(st.integers(0, 2)) == 0:
+                val = None
+            op = ["set_value", sid, name, full, val]
             hist.append(op)
             apply_ref(G, op)
             gsim.assign((tup(sid), name, tuple(full)), op[4])
@@ -236,6 +239,11 @@ def run_case(case):
         res = real.apply(op)
         ticks = take_ticks()
         if res[0] != "ok":
+            if recalc and k == "set_value":
+                # the immediate recalculation of a dependent failed (e.g. a None flowed into it):
+                # failed evaluations are C05's business
+                out.discard = True
+                return out
             return out.fail("edit-raised", "%r -> %r" % (op, res), i)
         if k in ("set_value", "clear_at", "clear", "clear_all"):
             # addressing a cells inside an ItemSpace creates the instance (an evaluation of the space element)
